@@ -65,6 +65,8 @@ fn(H2 + "._create_stream", params={"request": "obj h2.events:RequestReceived"}, 
 fn(H2 + "._window_updated", params={"stream_id": "opt int"}, task="reader", props=("C04", "C09"))
 fn(H2 + "._priority_updated", params={"event": "obj h2.events:PriorityUpdated"}, task="reader", props=("C04", "C09"))
 fn(H2 + "._close_stream", params={"stream_id": "int"}, props=("C04", "C03"))
-fn(H2 + "._create_server_push", params={"stream_id": "int", "path": "bstr", "headers": "hdrs"}, task="app", props=("C04",))
+# raised into stream_send, which swallows the ProtocolError family (stream ids exhausted)
+fn(H2 + "._create_server_push", params={"stream_id": "int", "path": "bstr", "headers": "hdrs"}, task="app",
+   raises={"h2.ProtocolError": None}, props=("C04",))
 fn(H2 + ".initiate", params={"headers": "opt hdrs", "settings": "opt str"}, task="reader", props=("C04", "C13"))
 fn(H2 + ".idle", params={}, returns="bool", modifies=[], props=("C07",))
